@@ -29,6 +29,21 @@ C28  UnsubAll.tla is the documented semantics of Node.Unsubscribe (doc comment: 
        m7 label filter not applied when the channel is empty                   -> other-connection:channels
        m8 presence not removed for server-side subscriptions                   -> selected:presence
 
+     Second part, UnsubPhase.tla + harness mode c28p (added after seeded change C28-1 passed): "any set of
+     subscriptions" includes subscriptions still being established when the unsubscribe-all arrives.  Phases held
+     through public interfaces: cb (OnSubscribe callback unanswered), csbr / ssbr (client command / Client.Subscribe
+     parked in Broker.Subscribe by cl.GateBroker).  Model: phase variable per (connection, channel), the call =
+     snapshot of the connection's channels in every phase + per-channel wait (UnsubAllStart .. Release/Refuse ..
+     UnsubAllDone); property UnsubscribeAllCoversEveryPhase (action property).  TLC exhaustive quick 10.7k states,
+     thorough 376k; 150 / 3000 simulated behaviours replayed with Node.Unsubscribe(user, "") on A or B or
+     Client.Unsubscribe("") directly; judged only when the model says the call is done: the call has returned and
+     Channels(), hub counts, presence, callbacks, leaves, pushes are the per-channel reference's.  Signatures
+     emptych:selected:<aspect>:<node|direct>[:in-progress], emptych:call-does-not-return.  /repo HEAD: green seeds
+     1-3 and thorough (3000/3000, 2968 calls that had to wait); seeded C28-1 (empty-channel branch iterates
+     c.Channels()): exit 1 with ...:in-progress signatures.  Map subscriptions still loading are not exercised (the
+     per-channel reference waits 5 s for them and then disconnects).  Modelling note: refusing a held subscribe needs
+     the channel's subscription lock (onSubscribeErrorGen -> removeSubscription), hence LockFree in Refuse.
+
 C27  Control.tla transcribes control.proto (Proto), pubSubscribe/pubUnsubscribe/pubDisconnect/pubRefresh (EncodeMap),
      handleControl (DecodeMap) and an abstract effect of an option set (hub selection + Client.Subscribe/subscribeCmd,
      Unsubscribe, Disconnect, Refresh); it STATES Lost(subscribe) = {RecoveryMode, AutoCacheRecover, HistoryMetaTTL,
@@ -55,7 +70,15 @@ C41  Survey.tla: registry, response channel of capacity numNodes, eager collecto
      parks the surveying goroutine, Controller sees the request, responses injected through Node.HandleControl under
      a watchdog, deadline = Done() of a harness context, ctx.Err() parks Survey between collector end and registry
      delete; shim reads len/cap of the response channel after every step.
-     FINDING (unchanged tree): late-local-reply-blocks -- deadline passes, two late/duplicated remote answers fill the
+     The registry is an explicit variable (each survey registers / unregisters ITS OWN id, answers routed by id):
+     RegistryIsInFlight, RegistryEmptyAfterAll, HeardAreReturned (every node whose answer arrived while the survey
+     waited is in what it returns), 3 overlapping surveys in thorough (survey_three.cfg, 236k states), witness
+     WitOverlap (older survey returns while the newer one is in flight, then the newer one gets its last answer).
+     A registry difference seen through the shim alone is not a verdict: the behaviour continues and observable
+     consequences decide (overlap:newer-survey-loses-answers, no-return:*, result:*); without any it is drift
+     (a leaked registry entry is not covered by the property text: drift).  Seeded C41-2 (cleanup deletes
+     registry[n.surveyID]): exit 1, overlap:newer-survey-loses-answers + result:missing; /repo HEAD green seeds 1-3.
+     FINDING (tree before c41.fix.diff): late-local-reply-blocks -- deadline passes, two late/duplicated remote answers fill the
      channel before the registry entry is deleted, then the asynchronous local SurveyCallback blocks forever (leaked
      application goroutine; no effect on the control reader or other surveys).  Fix: spec/Cluster/c41.fix.diff
      (non-blocking send in the local callback, as handleSurveyResponse already does).
@@ -84,7 +107,7 @@ MUTATIONS_C41 (on top of c41.fix.diff, /tmp/cluster-k*), all 7 caught (exit 1):
   k4 a response with an unknown id is handed to any in-flight survey              -> result:extra
   k5 deadline ignored while nothing was collected                                 -> no-return:deadline
   k6 off by one: complete with numNodes-1 answers                                 -> early-return
-  k7 registry entry deleted before collecting                                     -> unregistered-while-collecting
+  k7 registry entry deleted before collecting                                     -> no-return:complete / result:missing
 Not detectable with the chosen values (documented limit): a lost / altered epoch of RecoverSince.
 """
 import re
@@ -97,7 +120,7 @@ def c28(c):
     for cfg in (['unsub_quick.cfg'] if quick else ['unsub_thorough.cfg', 'unsub_thorough3.cfg']):
         r = c.tlc_exhaustive('Cluster', 'UnsubAll', cfg, workers=4, timeout=3000)
         c.log('TLC exhaustive %s: %d distinct / %d generated, depth %d, %.0fs' % (cfg, r['distinct'], r['states'], r['depth'], r['wall_s']))
-    s = c.tlc('Cluster', 'UnsubAllSim', 'unsub_sim.cfg', simulate=250 if quick else 3000, depth=13, timeout=2400)
+    s = c.tlc('Cluster', 'UnsubAllSim', 'unsub_sim.cfg', simulate=200 if quick else 3000, depth=13, timeout=2400)
     if not s['ok']:
         raise vf.Inconclusive('simulation failed: %s\n%s' % (s['error'], s['out'][-3000:]))
     behs = c.behaviours(s)
@@ -107,14 +130,26 @@ def c28(c):
     c.absorb(res)
     c.log('replayed %d behaviours, %d completed, %d empty-channel calls conform, %d distinct non-trivial' % (
         res['executed'], res['completed'], res['counters'].get('emptych_steps', 0), res['nontrivial']))
-    c.cov['traces_validated_against_impl'] = res['completed']
-    c.cov['evaluations'] = res['executed']
-    c.cov['distinct_nontrivial'] = res['nontrivial']
-    c.cov['samples'] = res['samples'] or []
+    # second part: every PHASE of a subscription (in flight when the unsubscribe-all arrives), spec/Cluster/UnsubPhase.tla
+    r = c.tlc_exhaustive('Cluster', 'UnsubPhase', 'phase_quick.cfg' if quick else 'phase_thorough.cfg', workers=4, timeout=3000)
+    c.log('TLC exhaustive UnsubPhase: %d distinct / %d generated, depth %d, %.0fs' % (r['distinct'], r['states'], r['depth'], r['wall_s']))
+    s = c.tlc('Cluster', 'UnsubPhase', 'phase_sim.cfg', simulate=150 if quick else 3000, depth=12, timeout=2400)
+    if not s['ok']:
+        raise vf.Inconclusive('simulation failed: %s\n%s' % (s['error'], s['out'][-3000:]))
+    res2 = c.harness(binp, 'c28p', {'behaviours': c.behaviours(s), 'workers': 4}, timeout=2400)
+    c.absorb(res2)
+    c.log('phases: replayed %d behaviours, %d completed, %d unsubscribe-all calls judged, %d of them arrived while a subscribe was in flight' % (
+        res2['executed'], res2['completed'], res2['counters'].get('judged_calls', 0), res2['counters'].get('waited_calls', 0)))
+    c.cov['traces_validated_against_impl'] = res['completed'] + res2['completed']
+    c.cov['evaluations'] = res['executed'] + res2['executed']
+    c.cov['distinct_nontrivial'] = res['nontrivial'] + res2['nontrivial']
+    c.cov['samples'] = (res['samples'] or []) + (res2['samples'] or [])[:1]
     c.cov['rule'] = ('behaviours of UnsubAllSim.tla (TLC -simulate): Subscribe / NodeUnsubscribe steps on four connections over two real nodes; '
                      'non-trivial = Node.Unsubscribe with an empty channel selecting at least one connection that holds a subscription and conforming to '
-                     'the model, distinct by (arguments, subscriptions of the selected connections before the call)')
-    c.assumptions += ['JSON protocol, stream subscriptions (no map / shared-poll subscriptions), no subscribe in flight during the call',
+                     'the model, distinct by (arguments, subscriptions of the selected connections before the call); plus behaviours of UnsubPhase.tla '
+                     '(subscribes held in the phases cb / csbr / ssbr while the unsubscribe-all arrives): non-trivial = completed behaviour with a call that '
+                     'had to wait for a subscribe in flight, distinct by schedule')
+    c.assumptions += ['JSON protocol, stream subscriptions (no map / shared-poll subscriptions); UnsubAll: no subscribe in flight during the call; UnsubPhase: no new subscribe starts while the call is blocked, map subscriptions still loading not exercised',
                       'the per-connection work of one Node.Unsubscribe call is compared at the quiescent point after the call (barrier on every connection)',
                       'presence / join-leave enabled per channel class (a,c presence; a,b join-leave)']
 
@@ -159,10 +194,10 @@ def _witness(c, cfg):
 
 def c41(c):
     quick = c.tier == 'quick'
-    for cfg in (['survey_quick.cfg'] if quick else ['survey_quick.cfg', 'survey_thorough.cfg']):
+    for cfg in (['survey_quick.cfg'] if quick else ['survey_quick.cfg', 'survey_three.cfg', 'survey_thorough.cfg']):
         r = c.tlc_exhaustive('Cluster', 'Survey', cfg, workers=4, timeout=3000)
         c.log('TLC exhaustive %s: %d distinct / %d generated, depth %d, %.0fs' % (cfg, r['distinct'], r['states'], r['depth'], r['wall_s']))
-    wits = [_witness(c, 'survey_wit1.cfg'), _witness(c, 'survey_wit2.cfg')]
+    wits = [_witness(c, 'survey_wit1.cfg'), _witness(c, 'survey_wit2.cfg'), _witness(c, 'survey_wit3.cfg')]
     c.log('witness schedules: %s' % ' | '.join('; '.join(s['step']['act'] for s in w[1:]) for w in wits))
     binp = c.go_build('cluster')
     tot = {'executed': 0, 'completed': 0}
